@@ -503,14 +503,20 @@ impl FixtureDatabase {
         let mut available_fixtures = Vec::new();
         let mut seen_names = HashSet::new();
 
-        // Priority 1: Fixtures in the same file
+        // Priority 1: Fixtures in the same file (last definition wins, as in resolution)
         for entry in self.definitions.iter() {
             let fixture_name = entry.key();
-            for def in entry.value().iter() {
-                if def.file_path == file_path && !seen_names.contains(fixture_name.as_str()) {
-                    available_fixtures.push(def.clone());
-                    seen_names.insert(fixture_name.clone());
-                }
+            if seen_names.contains(fixture_name.as_str()) {
+                continue;
+            }
+            if let Some(def) = entry
+                .value()
+                .iter()
+                .filter(|def| def.file_path == file_path)
+                .max_by_key(|def| def.line)
+            {
+                available_fixtures.push(def.clone());
+                seen_names.insert(fixture_name.clone());
             }
         }
 
@@ -1705,6 +1711,7 @@ impl FixtureDatabase {
     ///
     /// Returns the best matching FixtureDefinition based on pytest's
     /// fixture shadowing rules: same file > conftest hierarchy > third-party.
+    #[allow(dead_code)] // Public API, used in tests
     pub fn resolve_fixture_for_file(
         &self,
         file_path: &Path,
